@@ -78,6 +78,21 @@ func printWitnesses() {
 	uni([]*M{eq, eq2}, []*M{eq2, eq})
 	uni([]*M{leaf("platform_system", "==", "Linux", false), leaf("platform_system", "==", "linux", false), leaf("platform_system", "==", "Linux", true)},
 		[]*M{leaf("os_name", "in", "posix nt", false), leaf("os_name", "in", "posix nt", true)})
+	// zero-padded re-spellings (corpus/C16/padded.ops): post-release exclusion of >, pre-release
+	// exclusion of <, prefix matching, with more / fewer release segments than the value
+	for _, x := range []struct {
+		v, op, lit string
+		flip       bool
+	}{
+		{"python_full_version", ">", "3.9.6.0.post1", true}, {"python_version", ">", "3.9.0.0.post2", true}, {"python_version", ">", "3.9.0.post1", true},
+		{"python_full_version", ">=", "3.9.6.0.post1", true}, {"python_full_version", "<", "3.9.6.0.post1", false}, {"python_full_version", "<", "3.9.6.0", false},
+		{"python_full_version", "==", "3.9.6.0.0", false}, {"python_version", "==", "3.9.0.0", true}, {"python_version", "==", "3.9.0.*", false},
+		{"python_full_version", "~=", "3.9.6.0", false}, {"python_version", "~=", "3.9.0", false}, {"python_full_version", "<=", "3.9.6.0.0", false},
+		{"python_full_version", "!=", "3.9.6.0", false}, {"python_version", "<", "3.9.0.0.post1", false}, {"implementation_version", ">", "3.9.6.0.0.post0", true},
+	} {
+		m := leaf(x.v, x.op, x.lit, x.flip)
+		fmt.Printf("padded\tmarker-ref\t%s\n", markerLine("marker", m.render(), nil, m))
+	}
 	// requirement-string seeds for the corpus (oracle dep-ref needs an AST; these are
 	// correspondence seeds taken from metadata_test.go shapes)
 	for _, s := range []string{"foo", " Foo_Bar [e1, E2] (>=1.0, <2) ; python_version >= '3.8' ", "a.b-c>=1;os_name=='a;b'", "x[", "x[a]b", ";", "name@ http://x", "a (>=1", "a ( >=1 ) ", "a()", "a[]", "  ", "\t"} {
